@@ -11,8 +11,7 @@
 #define OP_E ((char)69)
 #define OP_X ((char)88)
 /* INV:  expiry metadata only for present keys;  a cached entry is the stored value with the key's absolute expiry (kNoExpiry() without one) */
-#define INV ((!EX.has || KV.has) && (st._config.maxCacheSize != 0 || !CA.has) /* a disabled cache stays empty */ && \
-             (!CA.has || (KV.has && CA.val.value.p == KV.val.p && CA.val.value.n == KV.val.n && CA.val.expiry == (EX.has ? EX.val.expiry : IORA_TP_MAX))))
+#define INV KV_INV(&st)     /* pre.h; incl. "a disabled cache (maxCacheSize 0) stays empty" */
 #define OPS_SETUP \
   KVStore st; \
   KV.has = nondet_bool(); KV.val.n = nondet_size_t(); KV.touched = false; KV.gtouched = false; \
@@ -130,6 +129,52 @@ void h_op_evict(void)
   __CPROVER_assert(IMPL(key.is_g && live && ex0.expiry > now, OK && KV_UNCHANGED && EXP_UNCHANGED && EX.val.timerId == G_arm_id && G_arm_expiry == ex0.expiry && G_log_calls == 0), "EVICT-REARM fired early: only the timer id changes (fresh timer for the same expiry)");
   __CPROVER_assert(IMPL(key.is_g && live && ex0.expiry <= now, !KV.has && !EX.has && !CA.has && G_log_calls == 1 && G_log_op == OP_D), "EVICT-EVICT expiry has passed: value, expiry, cache entry gone; a 'D' record is written");
   __CPROVER_assert(IMPL(key.is_g && kv_has0 && !KV.has, live && ex0.expiry <= now), "EVICT-ONLY-EXPIRED a key is evicted only when its CURRENT expiry has passed (generation guard)");
+}
+
+/* ------------------------------------------------------------------ setBatch (both overloads): loops over the batch closed by loop contracts (pre.h), the batch is a
+ * witness-key map on the SAME ghost key, iterated by cursor: any number of entries, any order, the ghost key's entry (if the batch has one) at any position. */
+#define BATCH_SETUP \
+  OPS_SETUP \
+  iora_batchmap bt; bt.has = nondet_bool(); bt.val.n = nondet_size_t(); bt.n = nondet_size_t(); bt.gpos = nondet_size_t(); bt.gkn = nondet_size_t(); bt.touched = false; bt.gtouched = false; \
+  __CPROVER_assume(IMPL(bt.has, bt.gpos < bt.n)); \
+  G_logg_calls = 0; G_logg_ok = false; G_log_anyfail = false; G_armg_calls = 0;
+#define BATCH_ASSERTS(P, OPC) \
+  __CPROVER_assert(INV, P "-INV the coupling invariant holds afterwards, on every path (also after the rollback of a failed batch)"); \
+  __CPROVER_assert(iora_exc == EXC_NONE || iora_exc == EXC_KVStoreException, P "-X only KVStoreException"); \
+  __CPROVER_assert(IMPL(!bt.has, KV_UNCHANGED && EX_UNCHANGED) || !OK, P "-FRAME a completed batch without the ghost key leaves its value and expiry untouched"); \
+  __CPROVER_assert(IMPL(OK && bt.n > 0, !G_log_anyfail && IMPL(bt.has, G_logg_calls == 1 && G_logg_ok && G_logg_op == (OPC) && G_logg_value.p == bt.val.p && G_logg_value.n == bt.val.n)), \
+                   P "-LOG acknowledged => no write failed and exactly one record with the batch value was written for the key"); \
+  __CPROVER_assert(IMPL(G_log_anyfail, !OK), P "-ACK a failed log write is never acknowledged"); \
+  __CPROVER_assert(IMPL(bt.n == 0, !KV.touched && !EX.touched && !CA.touched && G_log_calls == 0), P "-EMPTY an empty batch changes and logs nothing"); \
+  __CPROVER_assert(IMPL(bt.has && !(bt.gkn >= 1 && bt.gkn <= MAX_KEY_LENGTH && bt.val.n <= MAX_VALUE_LENGTH), !OK && !KV.touched && !EX.touched && !CA.touched && G_log_calls == 0), \
+                   P "-REFUSE an invalid entry refuses the whole batch before anything is changed or logged"); \
+  __CPROVER_assert(IMPL(bt.n > 0 && st._shutdown, !OK && !KV.touched && !EX.touched && !CA.touched), P "-SHUT shut-down store: exception, nothing changed");
+
+/* proof "op_set_batch" */
+void h_op_set_batch(void)
+{
+  BATCH_SETUP
+  KVStore_setBatch(&st, &bt);
+  IORA_CANARY("h_op_set_batch: returns");
+  if (OK && bt.has) { IORA_CANARY("h_op_set_batch: acknowledged batch containing the ghost key"); }
+  if (!OK && G_log_anyfail) { IORA_CANARY("h_op_set_batch: a log write failed"); }
+  BATCH_ASSERTS("BATCH", OP_S)
+  __CPROVER_assert(IMPL(bt.n == 0, OK), "BATCH-EMPTYOK an empty batch returns normally");
+  __CPROVER_assert(IMPL(OK && bt.has, VAL_IS(bt.val) && !EX.has), "BATCH-REF reference map: the key holds the batch value; a plain batch clears an earlier expiry");
+}
+/* proof "op_set_batch_ttl" */
+void h_op_set_batch_ttl(void)
+{
+  BATCH_SETUP
+  iora_sec ttl = nondet_i64();
+  KVStore_setBatch_ttl(&st, &bt, ttl);
+  IORA_CANARY("h_op_set_batch_ttl: returns");
+  if (OK && bt.has) { IORA_CANARY("h_op_set_batch_ttl: acknowledged batch containing the ghost key"); }
+  BATCH_ASSERTS("BATCHTTL", OP_E)
+  __CPROVER_assert(IMPL(ttl <= 0, !OK && !KV.touched && G_log_calls == 0), "BATCHTTL-TTL ttl <= 0 is refused");
+  __CPROVER_assert(IMPL(OK && bt.has, VAL_IS(bt.val) && EX.has && EX.val.expiry == G_armg_expiry && EX.val.timerId == G_armg_id && G_armg_calls == 1 && G_now_calls == 1 && EX.val.expiry > G_now_last),
+                   "BATCHTTL-REF reference map: the key holds the batch value and the batch-wide absolute expiry now + ttl (one clock reading), timer armed for it");
+  __CPROVER_assert(IMPL(OK && bt.has && G_toms_called, G_toms_arg == G_armg_expiry), "BATCHTTL-LOGEXP the records carry toEpochMs of the expiry stored for the key");
 }
 
 /* ------------------------------------------------------------------ OBSERVATION K7 (NOT part of the registered check: proof "rollback_observation" has "tier": "off")
